@@ -4,3 +4,5 @@ import NormModel.Properties.C10
 #print axioms Norm.C10.bad_reported
 #print axioms Norm.C10.all_consumed
 #print axioms Norm.C10.dict_injective
+#print axioms Norm.C10.content
+#print axioms Norm.C10.roundtrip
